@@ -1297,6 +1297,21 @@ func ruleListDiff(w *World, r *Report, pkg *ssa.Package) {
 						if c, ok := v.(*ssa.Call); ok && isHashCodeCall(c) {
 							has = true
 						}
+						// ... also when a helper of the package builds the sequence (benign B-r1)
+						if c, ok := v.(*ssa.Call); ok {
+							if g := staticCallee(c); g != nil && g.Blocks != nil && fnPkg(g) == pkg.Pkg && g != fnDiff {
+								dg := NewDeriv(w, g)
+								for _, ret := range returnsOf(g) {
+									for _, res := range ret.Results {
+										for v2 := range dg.Visited(res) {
+											if c2, ok := v2.(*ssa.Call); ok && isHashCodeCall(c2) {
+												has = true
+											}
+										}
+									}
+								}
+							}
+						}
 					}
 					okH = okH && has
 				}
